@@ -214,8 +214,9 @@ def draw_op(rng, name, f, kind, curves, azimuths, fault_rate=0.0):
                   ("plot_peak_mean_curve", 0.7), ("plot_peak_individual_valid_curves", 0.7),
                   ("plot_peak_individual_invalid_curves", 0.4)]}}
         if rng.random() < 0.25:
-            op["fault"] = {"kind": "raise_in_call", "site": rng.choice(["ax.plot", "ax.fill", "ax.legend"]),
-                           "at": rng.randrange(0, 12)}
+            site = rng.choice(["ax.plot", "ax.plot", "ax.fill", "ax.legend"])
+            op["fault"] = {"kind": "raise_in_call", "site": site,
+                           "at": rng.randrange(0, 12) if site == "ax.plot" else rng.randrange(0, 2)}
         return op
     raise ValueError(name)
 
@@ -1188,3 +1189,51 @@ def shrinks(t, prop):
                 c = copy.deepcopy(t)
                 c["world"]["curves"][a][j] = {"r": "bump", "k": 0, "i0": s.get("i0", 3), "a": 2.0, "w": 0.3, "base": 1.0}
                 yield c
+
+
+_COMPONENTS = {
+    "real": ["HvsrCurve / HvsrTraditional / HvsrAzimuthal / HvsrDiffuseField and hvsrpy.statistics",
+             "frequency_domain_window_rejection, sta_lta_window_rejection, maximum_value_window_rejection, manual_window_rejection",
+             "write_hvsr_object_to_file / read_hvsr_object_from_file with numpy savetxt/loadtxt and the stdlib I/O stack (C12)",
+             "hvsrpy.postprocessing on the matplotlib Agg back end, pandas Styler (C20)"],
+    "stub": ["the human in manual_window_rejection (SimUser replaces ginput_session)",
+             "the raw storage device (SimFS, fault-injecting) (C12)",
+             "IPython.display.display (captured) and injected exceptions inside Axes.plot/fill/legend (C20)"],
+}
+EVIDENCE = {
+    "C05": {"components": _COMPONENTS, "assumptions": [
+        "per-window peaks are taken from the public HvsrCurve API under the object's current range (peak finding is C08's business)",
+        "states with fewer than two accepted windows or peaks are outside the property's domain and counted as trivial",
+        "the rebuilt-from-accepted comparison is made only when every accepted window has a peak and both masks agree",
+        "no storage, clock or scheduling fault applies to this property; the simulator owns the operation history"]},
+    "C06": {"components": _COMPONENTS, "assumptions": [
+        "entry state = deep copy of the object after its own public update_peaks_bounded call with the operation's arguments",
+        "float ties (peak within 1e-9 of a bound, convergence quantity within 1e-9 of 0.01, a zero-tested quantity below 1e-12, "
+        "near-equal maxima of the mean curve) are counted (probe fdwra_float_tie) but the refinement is not judged there",
+        "custom find_peaks kwargs and entry states with unequal masks are not refined (always-on invariants still apply)",
+        "no fault kind applies to this property"]},
+    "C08": {"components": _COMPONENTS, "assumptions": [
+        "'strictly inside the range' is judged so that both the snapped-to-grid and the in-hertz reading accept the verdict "
+        "(models/peaks.py: required = inside under both readings, allowed = inside under either)",
+        "with custom find_peaks kwargs only 'is an interior local maximum with the curve's amplitude' is judged",
+        "no fault kind applies to this property"]},
+    "C11": {"components": _COMPONENTS, "assumptions": [
+        "statistics of the resonance are judged when every azimuth has an accepted peak (>= 2 in total); curve statistics when "
+        "every azimuth has an accepted window and both masks have equal counts",
+        "no fault kind applies to this property"]},
+    "C12": {"components": _COMPONENTS, "assumptions": [
+        "azimuth values are distinct and have a plain decimal representation (the file format keys curves by the printed azimuth)",
+        "a torn file left by a failed or crashed write is probe-counted, not judged (the property speaks of completed writes)",
+        "under an injected write/read fault the call must raise, leave the object unchanged, and one retry must succeed"]},
+    "C20": {"components": _COMPONENTS, "assumptions": [
+        "artists are judged, not pixels; Agg back end only",
+        "plot_azimuthal_summary draws the mean-curve peak marker up to twice by design; every such marker must equal the object's",
+        "the period row is judged for distribution_fn='lognormal' (the table shows NaN for 'normal')"]},
+}
+REQUIRED_PROBES = {
+    "C05": ["c05_rebuilt", "c05_garbage_twin"],
+    "C06": ["fdwra_refinement_judged", "fdwra_reached_max_iterations", "fdwra_twin_permute_windows"],
+    "C11": ["c11_unequal_counts", "c11_single_azimuth", "c11_rebuilt"],
+    "C12": ["roundtrip_judged_trad", "roundtrip_judged_az", "roundtrip_judged_diff", "shadow_compared"],
+    "C20": ["plot_judged_single_panel", "plot_judged_pre_post", "plot_judged_summary_table"],
+}
